@@ -64,8 +64,8 @@ def cases(draw, family=None):
     c["arg"] = draw(st.sampled_from(["own_reporting", "own_reporting", "own_baseline", "foreign", "other_tz", "unfitted"]))
     c["rep"] = draw(zoo.reporting(b))
     c["other_tz_i"] = draw(st.integers(0, 3))
-    # whole-number temperatures / usage delivered with an integer dtype (well formed; not a sufficiency defect)
-    c["int_dtype"] = draw(st.sampled_from([None, None, None, None, "temperature", "both"]))
+    # temperatures / usage delivered with an integer or float32 dtype (well formed; not a sufficiency defect)
+    c["int_dtype"] = draw(st.sampled_from([None, None, None, None, "temperature", "both", "float32"]))
     return c
 
 
@@ -107,7 +107,10 @@ def defective_frame(c):
         df.iloc[10 * per, df.columns.get_loc("observed")] = -5.0
     if "poor" in d:
         df["observed"] = np.abs(rng.standard_cauchy(n)) * 5 + 0.01
-    if c.get("int_dtype"):
+    if c.get("int_dtype") == "float32":
+        for col in ("temperature", "observed"):
+            df[col] = df[col].astype("float32")
+    elif c.get("int_dtype"):
         for col in (("temperature",) if c["int_dtype"] == "temperature" else ("temperature", "observed")):
             if col in df.columns and np.isfinite(df[col].values.astype(float)).all() and fam != "billing":
                 df[col] = np.round(df[col].values.astype(float) * (1 if col == "temperature" else 10)).astype("int64")
